@@ -372,7 +372,7 @@ def run_case(case):
     rng = random.Random(case["seed"])
     static = {}
     if case["fam"] == "hier":
-        g = gen_v2.gen_hierarchy(rng, max_flows=6 if case.get("deep") else 5, depth_bias=bool(case.get("deep")), with_groups=True, with_when=True, main_kids_first=rng.random() < 0.8)
+        g = gen_v2.gen_hierarchy(rng, max_flows=6 if case.get("deep") else 5, depth_bias=bool(case.get("deep")), with_groups=True, with_when=True, main_kids_first=rng.random() < 0.8, ext_end=rng.random() < 0.3)
         src = g["src"]
         hist = ["FIN" if rng.random() < 0.35 else "E%d" % rng.randint(1, 3) for _ in range(case["hlen"])]
         if case.get("sta"):
